@@ -245,7 +245,7 @@ def main():
     rng = random.Random(seed * 1000003 + int(pid[1:]))
     if replay:
         return do_replay(pid, replay)
-    ev_path = os.path.join(VERIF, "evidence", pid + ".json")
+    ev_path = os.path.join(os.environ.get("QA_EVIDENCE_DIR") or os.path.join(VERIF, "evidence"), pid + ".json")   # QA_EVIDENCE_DIR: seeded-change trials write elsewhere
     os.makedirs(os.path.dirname(ev_path), exist_ok=True)
     violations = []       # (replay_path, no_failing_input_found)
     known_lines = []
